@@ -579,6 +579,11 @@ Proof.
   destruct l; try reflexivity. apply py_render_defaults_total.
 Qed.
 
+(* the case-style converters (utils.py) applied to accepted names by the renderers and the linter:
+   no index into a possibly empty piece, no .group() on a possibly-None match *)
+Lemma name_funcs_total : name_funcs_unguarded = [].
+Proof. reflexivity. Qed.
+
 (* ====================================================================================== *)
 (* 9. reading sources                                                                      *)
 (* ====================================================================================== *)
